@@ -210,6 +210,13 @@ pub fn run(ctx: &mut Ctx) {
                     let consistent = !ok || (needed as usize) <= size;
                     ctx.out.oracle(fenced && consistent, "ffi-wrote-outside-callers-buffer", &format!("SFileGetFileInfo class {class} on {} with buffer_size={size}: returned {ok}, needed={needed}, fence intact={fenced}", if is_file { "a file handle" } else { "an archive handle" }));
                     ctx.out.stat("c19.buffer_sweep.file_info");
+                    // Model.C19Buf.info: a supported class writes exactly `needed` bytes (the value, little-endian) when the buffer holds
+                    // them and nothing otherwise; `needed` is reported either way (0xABCD left alone = class not supported)
+                    if needed != 0xABCD && needed <= 16 {
+                        let val = if ok { let mut v = 0u128; for (i, b) in buf[8..8 + needed as usize].iter().enumerate() { v |= (*b as u128) << (8 * i); } v } else { 0 };
+                        let written = if ok { let k = (8..48).rev().find(|i| buf[*i] != CANARY).map(|i| i + 1 - 8).unwrap_or(0).max(needed as usize); hex(&buf[8..8 + k]) } else { "-".to_string() };
+                        if ok { ctx.out.case(&format!("c19buf info {needed} {val} {size}"), &format!("ok {written}")); } else { ctx.out.case(&format!("c19buf info {needed} 0 {size}"), "err"); }
+                    }
                 } }
             }
             if okf { let _ = SFileCloseFile(f); }
